@@ -101,7 +101,7 @@ def base_prims():
         "instance_check": is_instance, "subclass_check": is_subclass, "isinstance": is_instance, "issubclass": is_subclass,
         "as_bitvector": lambda x: BV(x.bits, "BitVector") if isinstance(x, BV) else x,
         "Bit": TypeTok("Bit"), "BitVector": _VecType("BitVector"), "Unsigned": _VecType("Unsigned"), "Signed": _VecType("Signed"),
-        "CohdlArray": TypeTok("CohdlArray"), "bool": _CallableTok("bool", bool), "CohdlBool": TypeTok("CohdlBool"), "int": _CallableTok("int", int), "CohdlInteger": TypeTok("CohdlInteger"),
+        "CohdlArray": TypeTok("CohdlArray"), "bool": _CallableTok("bool", bool), "CohdlBool": TypeTok("CohdlBool"), "int": _CallableTok("int", int), "float": _CallableTok("float", float), "str": _CallableTok("str", str), "CohdlInteger": TypeTok("CohdlInteger"),
         "TypeQualifierBase": {"decay": lambda x: x},
         "type": lambda x: TypeTok("Bit") if isinstance(x, BV) and x.kind == "Bit" else TypeTok(x.kind, width=x.width) if isinstance(x, BV) else TypeTok("bool") if isinstance(x, bool) else x,
     }
